@@ -339,34 +339,61 @@ func (e *Engine) intrinsic(st *State, f *Frame, x ssa.Value, callee *ssa.Functio
 			return ret(e.freshError(st, "fmt.Errorf@"+e.posStr(pos)))
 		case "Sprintf", "Sprint", "Sprintln":
 			// fmt.Sprintf("%v", x) with one operand: a string operand is returned as it is, a concrete integer or
-			// boolean operand is formatted; everything else is outside the supported fragment
+			// boolean operand is formatted; a guarded union of such operands gives the union of the results;
+			// everything else is outside the supported fragment
 			if name == "Sprintf" && len(args) == 2 {
 				if fs, ok := e.strArg(st, args[0]); ok && (fs == "%v" || fs == "%s" || fs == "%d") {
 					if va, ok := args[1].(SliceV); ok && va.len.IsConst() && va.len.val == 1 {
-						if iv, ok := e.elemAt2(st, va, b.BV(64, 0)).(IfaceV); ok && iv.dyn != nil {
-							if bt, ok := iv.dyn.Underlying().(*types.Basic); ok {
-								switch {
-								case bt.Info()&types.IsString != 0 && fs != "%d":
-									if sv, ok := iv.v.(SliceV); ok {
-										return ret(sv)
+						one := func(v Val) (Val, bool) {
+							iv, ok := v.(IfaceV)
+							if !ok || iv.dyn == nil {
+								return nil, false
+							}
+							bt, ok := iv.dyn.Underlying().(*types.Basic)
+							if !ok {
+								return nil, false
+							}
+							switch {
+							case bt.Info()&types.IsString != 0 && fs != "%d":
+								if sv, ok := iv.v.(SliceV); ok {
+									return sv, true
+								}
+							case bt.Info()&types.IsInteger != 0 && fs != "%s":
+								if c, ok := constInt(iv.v); ok {
+									if bt.Info()&types.IsUnsigned != 0 {
+										t, _ := scalarOf(iv.v)
+										return e.constString(strconv.FormatUint(t.val, 10)), true
 									}
-								case bt.Info()&types.IsInteger != 0 && fs != "%s":
-									if c, ok := constInt(iv.v); ok {
-										if bt.Info()&types.IsUnsigned != 0 {
-											t, _ := scalarOf(iv.v)
-											return ret(e.constString(strconv.FormatUint(t.val, 10)))
-										}
-										return ret(e.constString(strconv.FormatInt(c, 10)))
+									return e.constString(strconv.FormatInt(c, 10)), true
+								}
+							case bt.Info()&types.IsBoolean != 0 && fs == "%v":
+								if t, ok := scalarOf(iv.v); ok && t.IsConst() {
+									if t.val == 1 {
+										return e.constString("true"), true
 									}
-								case bt.Info()&types.IsBoolean != 0 && fs == "%v":
-									if t, ok := scalarOf(iv.v); ok && t.IsConst() {
-										if t.val == 1 {
-											return ret(e.constString("true"))
-										}
-										return ret(e.constString("false"))
-									}
+									return e.constString("false"), true
 								}
 							}
+							return nil, false
+						}
+						el := e.elemAt2(st, va, b.BV(64, 0))
+						if u, ok := el.(Union); ok {
+							var alts []Alt
+							good := true
+							for _, al := range u.alts {
+								if r, ok := one(al.v); ok {
+									alts = append(alts, Alt{al.g, r})
+								} else if iv, isI := al.v.(IfaceV); isI && iv.dyn == nil {
+									alts = append(alts, Alt{al.g, e.constString("<nil>")})
+								} else {
+									good = false
+								}
+							}
+							if good && len(alts) > 0 {
+								return ret(Union{alts})
+							}
+						} else if r, ok := one(el); ok {
+							return ret(r)
 						}
 					}
 				}
@@ -425,6 +452,10 @@ func (e *Engine) intrinsic(st *State, f *Frame, x ssa.Value, callee *ssa.Functio
 		}
 	case "time":
 		if r, ok := e.timeModel(st, callee, name, full, args, pos); ok {
+			return ret(r)
+		}
+	case "reflect":
+		if r, ok := e.reflectModel(st, callee, name, args); ok {
 			return ret(r)
 		}
 	case "unique":
